@@ -150,6 +150,36 @@ theorem rdnss_tie (r : G_RecursiveDNSServer) :
     rw [hf, hl]
     simp only [Outcome.bind_ok, rawOption_tie]
 
+theorem slots_length (servers : List Bytes) : ((servers.map pad16).flatten).length = 16 * servers.length := by
+  induction servers with
+  | nil => rfl
+  | cons s r ih => simp only [List.map_cons, List.flatten_cons, List.length_append, pad16_length, ih, List.length_cons]; omega
+
+/-- up to 15 servers the option is emitted: type 25, length 1 + 2n, reserved, lifetime, the 16-byte slots -/
+theorem rdnss_ok (life : UInt32) (servers : List Bytes) (h1 : servers ≠ []) (h2 : servers.length ≤ 15) :
+    rdnssMarshal life servers =
+      .ok (25 :: (1 + UInt8.ofNat (2 * servers.length)) :: ([0, 0] ++ be32Bytes life ++ (servers.map pad16).flatten)) := by
+  unfold rdnssMarshal rawOptMarshal
+  rw [if_neg h1, if_pos]
+  have e8 : (8 : UInt8).toNat = 8 := rfl
+  have e1 : (1 : UInt8).toNat = 1 := rfl
+  simp only [List.length_append, List.length_cons, List.length_nil, be32Bytes, slots_length, UInt8.toNat_mul, UInt8.toNat_add,
+    UInt8.toNat_ofNat', e8, e1]
+  omega
+
+/-- from 16 servers on (RFC 8106 allows 127) the option is REFUSED: `int(r.Length * 8)` in `(*RawOption).marshal` is a
+    uint8 product, so no option longer than 248 bytes can be encoded; the caller gets io.ErrUnexpectedEOF, nothing is sent -/
+theorem rdnss_too_many (life : UInt32) (servers : List Bytes) (h : 16 ≤ servers.length) :
+    rdnssMarshal life servers = .err .other := by
+  unfold rdnssMarshal rawOptMarshal
+  have h1 : servers ≠ [] := fun e => by simp [e] at h
+  rw [if_neg h1, if_neg]
+  have e8 : (8 : UInt8).toNat = 8 := rfl
+  have e1 : (1 : UInt8).toNat = 1 := rfl
+  simp only [List.length_append, List.length_cons, List.length_nil, be32Bytes, slots_length, UInt8.toNat_mul, UInt8.toNat_add,
+    UInt8.toNat_ofNat', e8, e1]
+  omega
+
 /-- one option of the list: the dispatch of `o.marshal()` -/
 abbrev optEnc (e1 : G_DNSSearchList → Outcome Bytes) (e2 : G_PrefixInformation → Outcome Bytes)
     (e4 : G_RouteInformation → Outcome Bytes) (o : I_Option) : Outcome Bytes :=
